@@ -246,3 +246,123 @@ theorem coverage : Gen.ttlcode.untranslated.map (·.1) = ["CodeStore.Close", "Co
   decide
 
 end TieTtlCode
+
+/-! ## End to end: the property theorems, stated of histories of the TRANSLATED code
+
+`genStep` performs one operation of the code store with the functions translated from `ttlcode.go`; the clock and the
+uuid generator are the driver's (`now`, the `n`-th fresh code is `name n`); each call may range over the map in a
+different order (`ord i`). -/
+
+namespace TieTtlCodeE2E
+open TtlCode TieTtlCode
+
+structure G where
+  c : Gen.ttlcode.CodeStore
+  now : Int
+  next : Nat
+
+def world (name : Nat → String) (ord : {α : Type} → List (String × α) → List (String × α)) (g : G) : Go.World :=
+  { now := g.now, fresh := name g.next, ord := ord }
+
+/-- what the caller of the translated code observes -/
+def outOf (r : Go.Token × Go.Error) : Out :=
+  match r.2 with
+  | none => .token r.1.BookingID r.1.payload
+  | some _ => .invalid
+
+def genStep (name : Nat → String) (ord : {α : Type} → List (String × α) → List (String × α)) (g : G) : Op → G × Out
+  | .submit bid tok =>
+      let r := Gen.ttlcode.CodeStore.SubmitToken (world name ord g) g.c { BookingID := bid, payload := tok }
+      ({ g with c := r.2, next := g.next + 1 }, .issued g.next)
+  | .exchange c =>
+      let r := Gen.ttlcode.CodeStore.ExchangeCode (world name ord g) g.c (name c)
+      ({ g with c := r.2.2 }, outOf (r.1, r.2.1))
+  | .clean => ({ g with c := Gen.ttlcode.CodeStore.CleanExpired (world name ord g) g.c }, .done)
+  | .deleteByBooking b => ({ g with c := Gen.ttlcode.CodeStore.DeleteByBookingID (world name ord g) g.c b }, .done)
+  | .setNow t => ({ g with now := t }, .done)
+
+def genRun (name : Nat → String) (ords : Nat → ({α : Type} → List (String × α) → List (String × α))) :
+    Nat → G → List Op → G × List Out
+  | _, g, [] => (g, [])
+  | i, g, op :: ops =>
+    let r := genStep name (ords i) g op
+    let rest := genRun name ords (i + 1) r.1 ops
+    (rest.1, r.2 :: rest.2)
+
+def toG (name : Nat → String) (s : Store) : G := { c := toGen name s, now := s.now, next := s.next }
+
+def OrdOk (ord : {α : Type} → List (String × α) → List (String × α)) : Prop := ∀ (α : Type) (m : List (String × α)), (ord m).Perm m
+
+theorem world_ok (name : Nat → String) (ord : {α : Type} → List (String × α) → List (String × α)) (hord : OrdOk ord) (s : Store) :
+    WorldOk name (world name ord (toG name s)) s := ⟨rfl, rfl, hord⟩
+
+theorem genStep_tie (name : Nat → String) (hinj : Function.Injective name)
+    (ord : {α : Type} → List (String × α) → List (String × α)) (hord : OrdOk ord) (s : Store) (hg : Good s) (op : Op) :
+    genStep name ord (toG name s) op = (toG name (step s op).1, (step s op).2) := by
+  have hw := world_ok name ord hord s
+  simp only [toG] at hw
+  cases op with
+  | submit bid tok =>
+    simp only [genStep, toG]
+    rw [submit_tie hinj _ s hw hg bid tok]
+    rfl
+  | exchange c =>
+    simp only [genStep, toG]
+    rw [exchange_tie hinj _ s hw c]
+    simp only [step]
+    cases hf : find s.entries c with
+    | none => simp [exchangeResult, outOf]
+    | some e => simp only; split <;> simp [exchangeResult, outOf]
+  | clean =>
+    simp only [genStep, toG]
+    rw [clean_tie hinj _ s hw hg]
+    rfl
+  | deleteByBooking b =>
+    simp only [genStep, toG]
+    rw [deleteByBooking_tie hinj _ s hw hg b]
+    rfl
+  | setNow t => rfl
+
+theorem genRun_tie (name : Nat → String) (hinj : Function.Injective name)
+    (ords : Nat → ({α : Type} → List (String × α) → List (String × α))) (hords : ∀ i, OrdOk (ords i))
+    (ops : List Op) (i : Nat) (s : Store) (hg : Good s) :
+    genRun name ords i (toG name s) ops = (toG name (run s ops).1, (run s ops).2) := by
+  induction ops generalizing i s with
+  | nil => rfl
+  | cons op ops ih =>
+    simp only [genRun, run]
+    rw [genStep_tie name hinj (ords i) (hords i) s hg op]
+    rw [ih (i + 1) (step s op).1 (good_step s op hg)]
+
+/-- successful exchanges of code `c` in a history, read off the observed outputs -/
+def okExchanges (c : Nat) : List Op → List Out → Nat
+  | op :: ops, o :: os => (if isOkExchange c (op, o) then 1 else 0) + okExchanges c ops os
+  | _, _ => 0
+
+theorem okExchanges_run (c : Nat) (s : Store) (ops : List Op) : okExchanges c ops (run s ops).2 = successes c s ops := by
+  induction ops generalizing s with
+  | nil => rfl
+  | cons op ops ih =>
+    simp only [run, okExchanges, successes]
+    rw [ih]
+
+/-- **C02 for the code as translated today**: in EVERY history of submit / exchange / sweep / delete-by-booking / clock
+    operations performed with the translated functions — any injective uuid naming, any map iteration orders — every
+    code is exchanged successfully at most once. -/
+theorem translated_code_exchanged_at_most_once (name : Nat → String) (hinj : Function.Injective name)
+    (ords : Nat → ({α : Type} → List (String × α) → List (String × α))) (hords : ∀ i, OrdOk (ords i))
+    (ttl : Int) (ops : List Op) (c : Nat) :
+    okExchanges c ops (genRun name ords 0 (toG name { ttl := ttl }) ops).2 ≤ 1 := by
+  rw [genRun_tie name hinj ords hords ops 0 { ttl := ttl } (good_init ttl)]
+  simp only
+  rw [okExchanges_run]
+  exact exchange_at_most_once ttl ops c
+
+/-- … and the translated code answers every history exactly as the model does -/
+theorem translated_outputs_are_the_models (name : Nat → String) (hinj : Function.Injective name)
+    (ords : Nat → ({α : Type} → List (String × α) → List (String × α))) (hords : ∀ i, OrdOk (ords i))
+    (ttl : Int) (ops : List Op) :
+    (genRun name ords 0 (toG name { ttl := ttl }) ops).2 = (run { ttl := ttl } ops).2 := by
+  rw [genRun_tie name hinj ords hords ops 0 { ttl := ttl } (good_init ttl)]
+
+end TieTtlCodeE2E
